@@ -10,6 +10,7 @@ import FalconProofs.C19.Image
 import FalconProofs.C19.Entries
 import FalconProofs.C19.Symbols
 import FalconProofs.C19.Link
+import FalconProofs.C19.History
 
 namespace Falcon.C19
 open Falcon.Elf
@@ -149,44 +150,72 @@ theorem fits_ok (d : ElfDesc) (B : Nat) (users : List Nat) (h : fits d B users =
   · unfold programEntryRes
     rw [if_pos h4]
 
-/-- **Linked objects: each relocated word holds the once-rebased address of the symbol it names.**
-    `placed` are the linked objects in load order with their bases; `linkSpecX86` maps them all and
-    applies every x86 relocation against the table of exported symbols.  If that succeeds and the
-    relocation sites are pairwise apart (no two within 4 bytes of each other), then for every
-    relocation `r` of a placed object `(d, B)` that names a symbol (`R_386_32`, `R_386_GLOB_DAT`,
-    `R_386_JMP_SLOT`) whose name `n` some placed object exports, the little-endian word at
-    `r_offset + B` is `st_value + B'` (mod 2^32) of a defined global or weak dynamic symbol `s` named
-    `n` of the FIRST placed object `(d', B')` that exports `n` — its base added exactly once.
+/-- **Linked objects, any history of the public linker API: each relocated word holds the once-rebased
+    address of the symbol it names, after any number of further `load_elf` calls.**
 
-    PARTIAL.  Full statement of the property: "when several objects are linked, each relocated word
-    holds the once-rebased address of the symbol it names", for every relocation kind the linker
-    implements.  Proved here: the three symbol-naming x86 kinds (REL, RELA and JMPREL tables).  Missing:
-    the same statement for the external GOT entries of MIPS o32 objects (`mipsGotSyms`: entry
-    `DT_MIPS_LOCAL_GOTNO + k` names dynamic symbol `DT_MIPS_GOTSYM + k`); those words are covered by the
-    correspondence check only (model `link` = falcon on every generated MIPS link).  `R_386_RELATIVE`
-    and `R_MIPS_REL32` name no symbol (word += base, see `relocX86`, `relocMipsRel`). -/
-theorem link_once_partial (placed : List (ElfDesc × Nat)) (img : Img) (h : linkSpecX86 placed = .ok img)
-    (hap : (steps placed).Pairwise (fun s s' => Apart s.site s'.site))
-    (d : ElfDesc) (B : Nat) (hd : (d, B) ∈ placed)
-    (r : Rel) (hr : r ∈ d.relas ++ d.rels ++ d.plt) (hk : r.namesSymbolX86 = true)
-    (n : String) (hn : symName d r.sym = some n)
-    (v : Nat) (hv : (globalTab placed).lookup n = some v) :
-    ∃ pre d' B' post s, placed = pre ++ (d', B') :: post ∧
-      (∀ x ∈ pre, (exportedTab x.1 x.2).lookup n = none) ∧
-      s ∈ d'.dynsyms ∧ s.name = n ∧ s.value ≠ 0 ∧ s.shndx ≠ 0 ∧
-      (s.stBind = STB_GLOBAL ∨ s.stBind = STB_WEAK) ∧
-      read32 img false (r.offset + B) = some ((s.value + B') % U32) := by
-  obtain ⟨pre, d', B', post, he, hpre, s, hs, h1, h2, h3, h4, h5⟩ := lookup_globalTab placed n v hv
-  refine ⟨pre, d', B', post, s, he, hpre, hs, h1, h2, h3, h4, ?_⟩
-  rw [linkSpecX86_eq] at h
-  have hmem : ((d, B, r) : Step) ∈ steps placed := (mem_steps placed (d, B, r)).mpr ⟨hd, hr⟩
-  have := runSteps_word (globalTab placed) (steps placed) (baseImage placed) img h hap
-    (fun s' hs' hok i hi => by
-      obtain ⟨hp, _⟩ := (mem_steps placed s').mp hs'
-      exact baseImage_mapped placed s'.1 s'.2.1 hp _ (siteOk_mapped s'.1 s'.2.1 s'.site hok i hi))
-    (d, B, r) hmem n v hk hn hv
-  rw [← h5]
-  exact this
+    `runCalls files big LinkState.empty calls` is the model of `ElfLinker::new` followed by further calls
+    of the public `load_elf` (`calls` = the (file name, base) arguments; the first call is the one `new`
+    makes, `link_is_history`): each call places the object and the DT_NEEDED objects not placed yet, adds
+    their exported symbols to the table (existing names are kept) and relocates THE NEW PLACEMENTS, once.
+    `trace` lists every placement `(d, B)` of the history with the linker's state `s` at the end of the
+    call that placed it; these are exactly the placements of the final state (`trace_complete`).
+
+    If the history succeeds, no two placements share an address (`Sep`) and inside every object the
+    relocation sites do not collide (`ObjOk`), then for EVERY placement, at the END of the history:
+    * every word of `objWords d B big s.tab` - the x86 `R_386_32`/`GLOB_DAT`/`JMP_SLOT` words and the
+      external entries of the MIPS o32 global GOT, see its definition - holds the value the table
+      `s.tab` gives for the symbol the word names (so it was not touched again, in particular not
+      relocated a second time, by any later call); and
+    * whatever `s.tab` answers for a name `n` is `st_value + B'` of a defined global or weak dynamic
+      symbol named `n` of the FIRST placement `(d', B')` of the final state that exports `n`: the base
+      of the defining object added exactly once.
+    (`R_386_RELATIVE` and `R_MIPS_REL32` name no symbol; the model adds the base to them once, when the
+    object is placed, and `history_words`' frame argument - `runCalls_frame` - shows that no later call
+    changes any byte of an object placed earlier.) -/
+theorem link_once (files : List ElfDesc) (big : Bool) (calls : List (String × Nat)) (stF : LinkState)
+    (h : runCalls files big LinkState.empty calls = .ok stF)
+    (hsep : Sep stF.placed) (hok : ∀ y ∈ stF.placed, ObjOk y.1)
+    (e : ElfDesc × Nat × LinkState) (he : e ∈ trace files big LinkState.empty calls) :
+    (∀ w, objWords e.1 e.2.1 big e.2.2.tab w → read32 stF.mem w.2.1 w.1 = some w.2.2) ∧
+    (∀ n v, e.2.2.tab.lookup n = some v →
+      ∃ pre d' B' post s, stF.placed = pre ++ (d', B') :: post ∧
+        (∀ x ∈ pre, (exportedTab x.1 x.2).lookup n = none) ∧
+        s ∈ d'.dynsyms ∧ s.name = n ∧ s.value ≠ 0 ∧ s.shndx ≠ 0 ∧
+        (s.stBind = STB_GLOBAL ∨ s.stBind = STB_WEAK) ∧ v = s.value + B') := by
+  refine ⟨fun w hw => history_words files big _ stF calls h hsep hok e he w hw, fun n v hv => ?_⟩
+  obtain ⟨ht, _, more, hm⟩ := trace_tab files big _ stF calls h rfl e he
+  rw [ht] at hv
+  obtain ⟨pre, d', B', post, hp, hpre, s, hs, h1, h2, h3, h4, h5⟩ := lookup_globalTab _ n v hv
+  exact ⟨pre, d', B', post ++ more, s, by rw [hm, hp]; simp, hpre, hs, h1, h2, h3, h4, h5⟩
+
+/-- `link_once` spelled out for x86: the word of a symbol-naming relocation. -/
+theorem link_once_x86 (files : List ElfDesc) (big : Bool) (calls : List (String × Nat)) (stF : LinkState)
+    (h : runCalls files big LinkState.empty calls = .ok stF)
+    (hsep : Sep stF.placed) (hok : ∀ y ∈ stF.placed, ObjOk y.1)
+    (e : ElfDesc × Nat × LinkState) (he : e ∈ trace files big LinkState.empty calls)
+    (hm : e.1.machine = EM_386) (r : Rel) (hr : r ∈ e.1.relas ++ e.1.rels ++ e.1.plt)
+    (hk : r.namesSymbolX86 = true) (n : String) (hn : symName e.1 r.sym = some n)
+    (v : Nat) (hv : e.2.2.tab.lookup n = some v) :
+    read32 stF.mem false (r.offset + e.2.1) = some (v % U32) :=
+  (link_once files big calls stF h hsep hok e he).1 (r.offset + e.2.1, false, v % U32)
+    (Or.inl ⟨hm, r, hr, hk, n, v, hn, hv, rfl⟩)
+
+/-- `link_once` spelled out for the MIPS o32 global GOT (`relocations_mips`): entry
+    `DT_MIPS_LOCAL_GOTNO + k` belongs to dynamic symbol `DT_MIPS_GOTSYM + k`, however many defined or
+    undefined symbols precede it; if that symbol is undefined and the table knows its name, the entry
+    holds the table's address. -/
+theorem link_once_mips_got (files : List ElfDesc) (big : Bool) (calls : List (String × Nat)) (stF : LinkState)
+    (h : runCalls files big LinkState.empty calls = .ok stF)
+    (hsep : Sep stF.placed) (hok : ∀ y ∈ stF.placed, ObjOk y.1)
+    (e : ElfDesc × Nat × LinkState) (he : e ∈ trace files big LinkState.empty calls)
+    (hm : e.1.machine = EM_MIPS) (lg gs sn pg : Nat)
+    (h1 : getDyn e.1 DT_MIPS_LOCAL_GOTNO = some lg) (h2 : getDyn e.1 DT_MIPS_GOTSYM = some gs)
+    (h3 : getDyn e.1 DT_MIPS_SYMTABNO = some sn) (h4 : getDyn e.1 DT_PLTGOT = some pg)
+    (k : Nat) (hk : k < sn - gs) (s : Sym) (hs : e.1.dynsyms[gs + k]? = some s) (hu : s.shndx = 0)
+    (v : Nat) (hv : e.2.2.tab.lookup s.name = some v) :
+    read32 stF.mem big (pg + e.2.1 + (lg + k) * 4) = some (v % U32) :=
+  (link_once files big calls stF h hsep hok e he).1 (pg + e.2.1 + (lg + k) * 4, big, v % U32)
+    (Or.inr ⟨hm, lg, gs, sn, pg, k, s, v, h1, h2, h3, h4, hk, hs, hu, hv, rfl⟩)
 
 /-! ## non-vacuity: a concrete two-segment object with bss, symbols and a PLT relocation -/
 
@@ -210,7 +239,8 @@ example : (entries exObj 0x1000 [0x401003]).map (·.1) = [0x402000, 0x402002, 0x
 example : symbols exObj 0x1000 = [(0x402002, "main"), (0x403002, "buf"), (0x403004, "puts")] := by decide
 example : programEntry exObj 0x1000 = 0x402000 := by decide
 
-/-! ## non-vacuity of `link_once_partial`: a program importing `puts` from a library placed at 0x42000000 -/
+/-! ## non-vacuity of `link_once`: a program importing `puts` from a library placed at 0x42000000, then a
+    further `load_elf` of a second library at 0x50000000 that imports `puts` too -/
 
 def exProg : ElfDesc :=
   { name := "prog", cls := .c32, enc := .lsb, machine := EM_386, etype := 2, entry := 0x8048000,
@@ -221,19 +251,45 @@ def exProg : ElfDesc :=
     plt := [⟨0x8049000, 1, 7, 0⟩] }
 def exLib : ElfDesc :=
   { name := "libc.so", cls := .c32, enc := .lsb, machine := EM_386, etype := 3, entry := 0x1000,
-    phdrs := [⟨1, 5, 116, 0x1000, 4, 4, [0x90, 0x90, 0x90, 0xc3], 0x70000000, 1⟩],
+    phdrs := [⟨1, 5, 116, 0x1000, 4, 4, [0x90, 0x90, 0x90, 0xc3], 0x70000000, 1⟩,
+              ⟨1, 6, 120, 0x2000, 4, 4, [0x02, 0x10, 0, 0], 0x2000, 4⟩],
     syms := [], dynsyms := [⟨"", 0, 0, 0, 0, 0⟩, ⟨"puts", 0x1002, 2, 0x12, 0, 1⟩],
-    dyns := [], needed := [], relas := [], rels := [], plt := [] }
-def exPlaced : List (ElfDesc × Nat) := [(exProg, 0), (exLib, 0x42000000)]
+    dyns := [], needed := [], relas := [], rels := [⟨0x2000, 0, 8, 0⟩], plt := [] }
+def exLib2 : ElfDesc :=
+  { name := "libx.so", cls := .c32, enc := .lsb, machine := EM_386, etype := 3, entry := 0x1000,
+    phdrs := [⟨1, 6, 116, 0x3000, 4, 4, [0, 0, 0, 0], 0x3000, 4⟩],
+    syms := [], dynsyms := [⟨"", 0, 0, 0, 0, 0⟩, ⟨"puts", 0, 0, 0x12, 0, 0⟩],
+    dyns := [], needed := [], relas := [], rels := [⟨0x3000, 1, 6, 0⟩], plt := [] }
+def exFiles : List ElfDesc := [exProg, exLib, exLib2]
 
-example : (globalTab exPlaced).lookup "puts" = some 0x42001002 := by decide
-/-- the link succeeds; the PLT slot holds `puts` of the library rebased once, the RELATIVE word its own base + value -/
-def exLinked : Bool :=
-  match linkSpecX86 exPlaced with
-  | .ok img => read32 img false 0x8049000 == some 0x42001002 && read32 img false 0x8049004 == some 0x8048010
+/-- after `new(prog)` and `load_elf(libx.so, 0x50000000)`: prog's PLT slot and libx's GOT slot hold `puts` of
+    libc.so rebased once; the R_386_RELATIVE word of libc.so (0x1002) was rebased once - not again by the
+    second call -; three placements -/
+def exHistory : Bool :=
+  match runCalls exFiles false LinkState.empty [("prog", 0), ("libx.so", 0x50000000)] with
+  | .ok st =>
+    read32 st.mem false 0x8049000 == some 0x42001002 && read32 st.mem false 0x50003000 == some 0x42001002
+      && read32 st.mem false 0x42002000 == some 0x42001002 && read32 st.mem false 0x8049004 == some 0x8048010
+      && st.placed.map (fun x => (x.1.name, x.2)) == [("prog", 0), ("libc.so", 0x42000000), ("libx.so", 0x50000000)]
   | _ => false
-example : exLinked = true := by decide
-example : (steps exPlaced).Pairwise (fun s s' => Apart s.site s'.site) := by
-  simp [steps, exPlaced, exProg, exLib, Apart, Step.site]
+example : exHistory = true := by decide
+
+/-! the hypotheses of `link_once` hold for the example history -/
+
+example : Falcon.Elf.Sep [(exProg, 0), (exLib, 0x42000000), (exLib2, 0x50000000)] := by
+  simp only [Falcon.Elf.Sep, List.pairwise_cons, List.mem_cons, List.not_mem_nil, or_false, forall_eq_or_imp, forall_eq,
+    List.Pairwise.nil, and_true, SepRel, false_imp_iff, implies_true]
+  refine ⟨⟨?_, ?_⟩, ?_⟩ <;>
+  · rintro a ⟨h1, h2⟩
+    obtain ⟨p, hp, hp1, hp2⟩ := inRange_bounds _ _ _ h1
+    obtain ⟨q, hq, hq1, hq2⟩ := inRange_bounds _ _ _ h2
+    simp only [exProg, exLib, exLib2, List.mem_cons, List.not_mem_nil, or_false] at hp hq
+    rcases hp with rfl | rfl <;> rcases hq with rfl | rfl <;> simp only at hp1 hp2 hq1 hq2 <;> omega
+
+example : ObjOk exProg ∧ ObjOk exLib ∧ ObjOk exLib2 := by
+  refine ⟨⟨fun _ => ?_, fun h => by simp [exProg, EM_386, EM_MIPS] at h⟩,
+          ⟨fun _ => ?_, fun h => by simp [exLib, EM_386, EM_MIPS] at h⟩,
+          ⟨fun _ => ?_, fun h => by simp [exLib2, EM_386, EM_MIPS] at h⟩⟩ <;>
+  simp [allRels, exProg, exLib, exLib2, Apart]
 
 end Falcon.C19
